@@ -132,6 +132,7 @@ func (p *Parser) Reset() {
 	p.ctx = nil
 	p.positions = nil
 	p.strict = false
+	p.dialect = ""
 }
 
 // currentLocation returns the source location of the current token.
@@ -282,6 +283,7 @@ type Parser struct {
 // Thread Safety: NOT thread-safe - use separate parser instances per goroutine.
 func (p *Parser) Parse(tokens []token.Token) (*ast.AST, error) {
 	p.tokens = tokens
+	p.positions = nil // a mapping left by an earlier ParseWithPositions belongs to other tokens
 	p.currentPos = 0
 	if len(tokens) > 0 {
 		p.currentToken = tokens[0]
@@ -547,6 +549,7 @@ func (p *Parser) ParseContext(ctx context.Context, tokens []token.Token) (*ast.A
 	defer func() { p.ctx = nil }() // Clear context when done
 
 	p.tokens = tokens
+	p.positions = nil // see Parse
 	p.currentPos = 0
 	if len(tokens) > 0 {
 		p.currentToken = tokens[0]
@@ -616,6 +619,7 @@ func (p *Parser) Release() {
 	p.currentToken = token.Token{}
 	p.depth = 0
 	p.ctx = nil
+	p.positions = nil
 }
 
 // parseStatement parses a single SQL statement using O(1) Type-based dispatch.
